@@ -1,7 +1,7 @@
 ID = 'C12'
 # shim=True: <unordered_map> resolves to engine/shim/unordered_map; -DVERIF_UMAP_NODES selects the node-based variant
 # (every element its own operator-new node, table of VERIF_UMAP_CAP node pointers). The native "real" build uses libstdc++.
-# memory caps per query (GB) from measured peak RSS: history k=3 2.3-2.5, k=4 mixed patterns 2.8, step 3/3 entries 2.0
+# memory caps per query (GB) from measured peak RSS: history k=3 2.3-2.5, k=4 mixed patterns 2.8, k=4 single-instance pattern 3.7, step 3/3 entries 2.0
 UNITS = {'lru': dict(wrap='wrap.cc', shim=True, new_block=64, cxxflags=['-DVERIF_UMAP_CAP=4', '-DVERIF_UMAP_NODES'])}
 
 BOUNDS = ('LRUSet<int> and LRUMap<int,int>, two instances each, keys {0,1,2}, sizes {0,1,2}, values {0,1,2}. '
@@ -47,7 +47,7 @@ def queries(tier):
         for k, w in cells:
             pat = ''.join(str((w >> i) & 1) for i in range(k))
             qs.append(dict(name='%s_hist_k%d_w%d' % (cls, k, w), unit='lru', harness='h_%s.c' % cls, defs={'K': k, 'WHICH': w}, unwind=6,
-                           timeout=2400, mem_gb=(8 if (k, w) == (4, 0) else {1: 3, 2: 3, 3: 3.5, 4: 3.5}[k]), object_bits=12, cost=(10 ** k) * (3 if (k, w) == (4, 0) else 1),
+                           timeout=2400, mem_gb=(5 if (k, w) == (4, 0) else {1: 3, 2: 3, 3: 3.5, 4: 3.5}[k]), object_bits=12, cost=(10 ** k) * (3 if (k, w) == (4, 0) else 1),
                            desc='%s: every history of %d operations (%s) on two fresh instances, operation i applied to instance %s: return values, size(), count() after each step and the final drain order equal the reference recency list' % (
                                'LRUSet<int>' if cls == 'set' else 'LRUMap<int,int>', k, ops, pat),
                            bounds='k=%d operations, 3 keys, sizes/values 0..2, target pattern %s' % (k, pat)))
